@@ -1175,10 +1175,13 @@ async def _main(world: World, client_fn: Any) -> None:
 
 
 def _arm_op(world: World, op: dict) -> None:
-    world.ops_pending += 1
+    timed = "after" not in op
+    if timed:
+        world.ops_pending += 1
 
     def fire() -> None:
-        world.ops_pending -= 1
+        if timed:
+            world.ops_pending -= 1
         kind = op["op"]
         world.rec("op", None, op=kind, w=op.get("w", 0))
         if kind == "stop":
@@ -1198,8 +1201,6 @@ def _arm_op(world: World, op: dict) -> None:
 async def _run_probe(world: World, client: SimBroker, cctx: Any, probe: dict) -> None:
     """Saturation probe (C03): n long tasks sent at once after the scripted history."""
     # ops whose trigger never happened are dropped now
-    for t in world.recorder.triggers:
-        world.ops_pending -= 1
     world.recorder.triggers = []
     n = probe["n"]
     world.rec("probe_start", None, n=n)
